@@ -40,7 +40,7 @@ for c in $CHECKS; do
   if ! go build -modfile="$OUT/go.mod" -tags verif $RACE -o "$OUT/$lc.bin" ./props/$lc > "$OUT/$lc.build.log" 2>&1; then echo "CHECK $c build-failed"; tail -5 "$OUT/$lc.build.log"; continue; fi
   SCR=$(mktemp -d /tmp/mc/scr-XXXXXX)
   t0=$(date +%s)
-  ( export VERIF_DIR="$OUT" VERIF_TIER=${MUT_TIER:-quick} VERIF_SEED=${VERIF_SEED:-1} TMPDIR="$SCR" VERIF_SCRATCH="$SCR"; [ -n "$RACE" ] && export VERIF_RACE_LOG="$SCR/race" GORACE="halt_on_error=0 log_path=$SCR/race history_size=3"; timeout -s QUIT 1200 "$OUT/$lc.bin" > "$OUT/$lc.out" 2> "$OUT/$lc.err" ); rc=$?
+  ( export VERIF_DIR="$OUT" VERIF_TIER=${MUT_TIER:-quick} VERIF_SEED=${VERIF_SEED:-1} TMPDIR="$SCR" VERIF_SCRATCH="$SCR"; [ -n "$RACE" ] && export VERIF_RACE_LOG="$SCR/race" GORACE="halt_on_error=0 exitcode=0 log_path=$SCR/race history_size=3"; timeout -s QUIT 1200 "$OUT/$lc.bin" > "$OUT/$lc.out" 2> "$OUT/$lc.err" ); rc=$?
   t1=$(date +%s)
   rm -rf "$SCR"
   crash=""; grep -qE '^(fatal error:|panic:)' "$OUT/$lc.err" && crash=" (process crashed: $(grep -m1 -E '^(fatal error:|panic:)' "$OUT/$lc.err"))"
